@@ -91,3 +91,12 @@ fn canary_pair_priority_role_independent() {
     let a = IceCandidatePair::new(cand(l), cand(r));
     assert!(a.priority(IceRole::Controlling) == a.priority(IceRole::Controlled));
 }
+
+/// RFC 4571 framing used for STUN over ICE-TCP: 16-bit big-endian length, then the message
+#[kani::proof]
+#[kani::unwind(12)]
+fn c16_frame_stun_for_tcp_layout() {
+    let d: [u8; 7] = kani::any();
+    let f = frame_stun_for_tcp(&d);
+    assert!(f.len() == 9 && f[0] == 0 && f[1] == 7 && f[2..] == d[..]);
+}
